@@ -286,7 +286,10 @@ void process_ordering(MessageSpecMap& mspec)
 
 		unsigned cnt(0);
 		for (auto *ii : mo)
+		{
 			ii->_pos = ++cnt;
+			ii->_field_traits.set(FieldTrait::position);	// fields added with -F arrive without a position
+		}
 	}
 }
 
@@ -301,7 +304,10 @@ void process_message_group_ordering(const GroupMap& gm)
 
 		unsigned gcnt(0);
 		for (auto *ii : go)
+		{
 			ii->_pos = ++gcnt;
+			ii->_field_traits.set(FieldTrait::position);
+		}
 
 		if (!pp.second._groups.empty())
 			process_message_group_ordering(pp.second._groups);
